@@ -37,11 +37,16 @@ CFGS = {
                   ChanNums='{16384}', PermSeqs='<- MCPermSeqs1', MaxDepth='6'),
     "MC_mtu": dict(kind="mc", doc="payload lengths around the padding and buffer boundaries",
                    PeerIPs='{"A"}', PeerPorts='{1}', ChanNums='{16384}', Lens='<- MCLensMTU',
-                   Pays='{"p", "stunlike", "chanlike", "zeros"}', MaxDepth='4'),
+                   Pays='{"p", "stunlike", "chanlike", "zeros", "cookie"}', MaxDepth='4'),
     "MC_resv": dict(kind="mc", doc="EVEN-PORT / RESERVATION-TOKEN: reservations, their 30 s life, token use by any client",
                     Clients='{"c1", "c2"}', PeerIPs='{"A"}', PeerPorts='{1}', ChanNums='{16384}', ReqFams='{0, 4}',
                     LifeReqs='<- MCLifeAbsent0', Txids='{"t1", "t2"}', Toks='{"none", "even", "bogus", "c1", "c2"}',
                     DefaultLife='40', PermTO='35', ChanTO='35', ResvTO='30', MaxDepth='6'),
+    "MC_quota": dict(kind="mc", doc="counting quota: q1 holds at most one allocation",
+                     Clients='{"c1", "c2"}', Users='{"q1", "u1"}', PeerIPs='{"A"}', PeerPorts='{1}', ChanNums='{16384}',
+                     LifeReqs='<- MCLifeAbsent0', Txids='{"t1", "t2"}', MaxDepth='6'),
+    "MC_stream": dict(kind="mc", doc="a datagram client and a stream client with the same IP and port (5-tuples differ in the transport only); the control connection closes",
+                      Clients='{"c1", "s1"}', PeerIPs='{"A"}', PeerPorts='{1}', ChanNums='{16384}', LifeReqs='<- MCLifeAbsent0', MaxDepth='6'),
     # ---- Engine A generation slices (every edge printed) ----------------------------------
     "GEN_relayA": dict(kind="gen", doc="one client: permissions, channels, both data paths, expiry (perm 2, chan 3, life 5)",
                        PermSeqs='<- MCPermSeqsAB', MaxDepth='6'),
@@ -53,8 +58,11 @@ CFGS = {
     "GEN_time": dict(kind="gen", doc="allocation lifetime classes, refresh (also with a REQUESTED-ADDRESS-FAMILY), delete, expiry",
                      ReqFams='{0, 6}', PeerIPs='{"A"}', PeerPorts='{1}', ChanNums='{16384}', LifeReqs='<- MCLifeTime',
                      Txids='{"t1", "t2"}', MaxDepth='5'),
-    "GEN_users": dict(kind="gen", doc="two users on one 5-tuple: ownership checks on every method; u2 is over its allocation quota",
-                      Users='{"u1", "u2"}', QuotaDenied='{"u2"}', PeerIPs='{"A"}', PeerPorts='{1}', ChanNums='{16384}',
+    "GEN_users": dict(kind="gen", doc="two users whose names differ in case only, on one 5-tuple: ownership checks on every method; U1 is over its allocation quota",
+                      Users='{"u1", "U1"}', QuotaDenied='{"U1"}', PeerIPs='{"A"}', PeerPorts='{1}', ChanNums='{16384}',
+                      LifeReqs='<- MCLifeAbsent0', Txids='{"t1", "t2"}', MaxDepth='5'),
+    "GEN_quota": dict(kind="gen", doc="user q1 may hold one allocation at a time (counting quota handler): retransmission and second Allocate are answered before the quota is asked",
+                      Clients='{"c1", "c2"}', Users='{"q1", "u1"}', PeerIPs='{"A"}', PeerPorts='{1}', ChanNums='{16384}',
                       LifeReqs='<- MCLifeAbsent0', Txids='{"t1", "t2"}', MaxDepth='5'),
     "GEN_iso": dict(kind="gen", doc="three 5-tuples sharing users, peers, channel numbers and transaction ids",
                     Clients='{"c1", "c2", "c3"}', Users='{"u1"}', PeerIPs='{"A"}', PeerPorts='{1}', ChanNums='{16384}',
@@ -71,9 +79,11 @@ CFGS = {
                      DefaultLife='40', PermTO='35', ChanTO='35', ResvTO='30', MaxDepth='5'),
     "GEN_recycle": dict(kind="gen", doc="identifier recycling: one channel number, two ports of one peer IP; bindings lapse and the number is bound again (small alphabet: long random histories)",
                         PeerIPs='{"A"}', PeerPorts='{1, 2}', ChanNums='{16384}', PermSeqs='<- MCPermSeqs1', MaxDepth='7'),
+    "GEN_stream": dict(kind="gen", doc="a datagram client and a stream client with the same IP and port; the control connection closes",
+                       Clients='{"c1", "s1"}', PeerIPs='{"A"}', PeerPorts='{1}', ChanNums='{16384}', LifeReqs='<- MCLifeAbsent0', MaxDepth='5'),
     "GEN_mtu": dict(kind="gen", doc="payload lengths / contents through both encapsulations and both directions",
                     PeerIPs='{"A"}', PeerPorts='{1}', ChanNums='{16384}', Lens='<- MCLensMTU',
-                    Pays='{"p", "stunlike", "chanlike", "zeros"}', MaxDepth='4'),
+                    Pays='{"p", "stunlike", "chanlike", "zeros", "cookie"}', MaxDepth='4'),
     "GEN_mtu1200": dict(kind="gen", doc="as GEN_mtu with InboundMTU 1200",
                         PeerIPs='{"A"}', PeerPorts='{1}', ChanNums='{16384}', Lens='<- MCLensMTU1200',
                         InboundMTU='1200', MaxDepth='4'),
